@@ -34,12 +34,6 @@ void probe_xattr_reader(const void *o, const void *c, FILE *f)
 void shape_xattr_reader(const void *o, FILE *f)
 {
 	const sqfs_xattr_reader_t *a = o;
-	const void *file = NULL, *cmp = NULL;
-
-	if (a->idrd != NULL)
-		meta_reader_refs(a->idrd, &file, &cmp);
-	fprintf(f, "rc=%zu ids=%d idrd=%d kvrd=%d file=%zu cmp=%zu", a->base.refcount,
-		a->id_block_starts != NULL, a->idrd != NULL, a->kvrd != NULL,
-		file ? ((const sqfs_object_t *)file)->refcount : 0,
-		cmp ? ((const sqfs_object_t *)cmp)->refcount : 0);
+	fprintf(f, "rc=%zu ids=%d idrd=%d kvrd=%d", a->base.refcount,
+		a->id_block_starts != NULL, a->idrd != NULL, a->kvrd != NULL);
 }
